@@ -1,3 +1,6 @@
+import os, re
+from xvlib.engine import VERIF
+from xvlib import lower as XL
 I = 'xenium/impl/vyukov_hash_map.hpp'
 H = 'xenium/vyukov_hash_map.hpp'
 T = 'xenium/impl/vyukov_hash_map_traits.hpp'
@@ -16,10 +19,62 @@ METH = {'locked': 'BS_locked', 'clear_lock': 'BS_clear_lock', 'new_version': 'BS
         'delete_marker': 'BS_delete_marker', 'move_to_next_bucket': 'VIT_MNB', 'buckets': 'BLK_buckets', 'acquire': 'GB_acquire',
         'reset': 'GB_reset'}
 ITM = ['block', 'current_bucket', 'current_bucket_state', 'index', 'extension', 'prev']
-LOCKB = (r'&lock_bucket\(([^,]+), ([^,]+), ([^)]+)\)', r'vhm_lock_bucket(self, \1, &\2, &\3)', 'lock_bucket_call')
-RESULT = (r'\biterator result;', 'struct vit result = VIT_default();', 'result_decl')
+# Rules name callees and types, never locals or the shape of a statement: arguments are passed through to macros of harness.c that take the addresses
+# C++ takes implicitly (by-reference parameters), so any argument expression and any spelling of the surrounding statement lowers the same way.
+LOCKB_CALL = {'lock_bucket': '*VHM_LOCK_BUCKET'}      # T& lock_bucket(h, blk&, st&) -> (*VHM_LOCK_BUCKET(self, h, blk, st)); `&lock_bucket(..)` = `&*..`
+RESULT = (r'\biterator (\w+);', r'struct vit \1 = VIT_default();', 'result_decl')
 BACKOFF = [(r'\bbackoff backoff;', '', 'backoff_decl'), (r'\bbackoff\(\);', 'XV_BACKOFF();', 'backoff_call')]
-CMPKEY = (r'traits::template compare_key<(\w+)>\(([^,]+), ([^,]+), key, h, acc\)', r'TR_compare_key(\1, &(\2), &(\3), key, h, &acc)', 'compare_key_call')
+CMPKEY = (r'traits::template compare_key<(\w+)>\(', r'TR_COMPARE_KEY(\1, ', 'compare_key_call')
+# C++ type names spelled out in declarations are typedefs of harness.c; std::atomic<T> is modelled as a plain cell of type T
+TYPE_SUBST = [(r'\bstd::atomic<([^<>;]*)>', r'\1', 'atomic_type')]
+
+def dtor_at_return(s, lw):
+    """C++ runs ~iterator() on the local iterator of find() when the function returns something else (`return end();`): the local is whatever
+       the RESULT rule lowered (`struct vit X = VIT_default();`), every `return e;` with e != X is preceded by vit_dtor(&X)"""
+    m = re.search(r'\bstruct vit (\w+) = VIT_default\(\);', s)
+    if not m: return s
+    x = m.group(1)
+    def rp(mm):
+        if mm.group(1).strip() == x: return mm.group(0)
+        lw.fire('dtor_at_return'); return '{ struct vit xv_r = %s; vit_dtor(&%s); return xv_r; }' % (mm.group(1).strip(), x)
+    return s[:m.end()] + re.sub(r'\breturn\b([^;]*);', rp, s[m.end():])
+def _loop_extent(t, kind, i):
+    """token indices (first, last) of the loop statement starting at token i"""
+    if kind == 'do':
+        b1 = XL._match_fwd(t, XL._next(t, i)); p = XL._next(t, XL._next(t, b1)); return i, XL._match_fwd(t, p)
+    e = XL._match_fwd(t, XL._next(t, i)); b = XL._next(t, e)
+    return (i, XL._match_fwd(t, b)) if t[b] == '{' else (i, b)
+def spin_cut(name):
+    """unit-local Route X cut of a spin loop that is identified by what it does - the outermost loop around the locking CAS - instead of by its
+       ordinal, in whichever function the text under this rule puts it: the source function itself or a helper the engine follows automatically
+       (helpers are lowered with the caller's rules, this one included).  The cut itself is the engine's (Lowerer.cut_loop); in front of it the
+       rule emits the entry hook XV_LOOP_ENTER_<name> (ghost snapshot the invariant refers to).  In a helper the engine does not check the havoc
+       macro against the loop body, so the rule does: everything the body assigns (other than the lock word of the CAS) must be declared inside the body or be named by the macro."""
+    def f(s, lw):
+        t, loops = lw.find_loops(s)
+        ordinal = None
+        for k, (kind, i) in enumerate(loops):
+            a, e = _loop_extent(t, kind, i)
+            if re.search(r'\bA_CASW?\(', ''.join(t[a:e + 1])): ordinal = k; break
+        if ordinal is None:
+            lw.fire('cut_loop_missing:' + name); return s          # the loop is elsewhere (a followed helper gets its own pass through this rule)
+        s = lw.cut_loop(s, ordinal, name)
+        if lw.spec.get('_route') == 'D': return s
+        s = s.replace('XV_LOOP_BASE(%s);' % name, 'XV_LOOP_ENTER_%s; XV_LOOP_BASE(%s);' % (name, name), 1)
+        if '>' in lw.spec['id']:
+            hz = open(os.path.join(VERIF, 'units', 'vhm_it', 'harness.c')).read()
+            hv = re.search(r'#define\s+XV_HAVOC_%s\b((?:.*\\\n)*.*)' % name, hz).group(1)
+            body = lw._cut_bodies[name]
+            inside = set(re.findall(r'(?:__auto_type|size_t|uint\d+_t|int|unsigned|_Bool|bool|\w+_t|struct \w+\s*\*?)\s+\*?(\w+)\s*(?:=|;)', body))
+            # the object of the locking CAS needs no havoc: a failed CAS does not write it, and a successful one changes the ghost set of held
+            # buckets, which the invariant XV_INV_<name> forbids on a path back to the loop head (checked at LOOPSTEP)
+            body = re.sub(r'\b(A_CASW?)\(\s*[^,;]+,', r'\1(xv_cas_obj,', body)
+            for ident in XL.assigned_idents(body):
+                if ident in inside or ident.startswith('xv_'): continue
+                if not re.search(r'\b%s\b' % re.escape(ident), hv):
+                    raise XL.ExtractError('loop %s (in helper %s) writes "%s" which XV_HAVOC_%s does not havoc' % (name, lw.spec['id'], ident, name))
+        return s
+    return f
 
 def cst(name, ty, file=I, subst=()):
     return dict(name=name, file=file, regex=r'static constexpr std::%s %s = ([^;]+);' % (ty, name), subst=list(subst))
@@ -44,7 +99,9 @@ UNIT = dict(
         '~iterator() on the local `result` first, `return result;` is a plain copy (NRVO; otherwise move ctor + destruction of an end iterator, both covered '
         'by the move/reset runs); by-reference parameters become pointers; the extension chain of the bucket under test is laid out in pool order '
         '(the code never compares item addresses for order, so this is a symmetry reduction); bucket_state member functions and constants are '
-        'the real text/values of the header (bucket_item_count = 3 is static-asserted against the harness array size)',
+        'the real text/values of the header (bucket_item_count = 3 is static-asserted against the harness array size); std::atomic<T> is a plain cell of type T, '
+        'the C++ type names are typedefs of the harness; the spin loops cut in the INT runs are located by content (the loop around the locking CAS, unit-local '
+        'rule spin_cut), also when the loop stands in a helper that is followed automatically, and their invariant/havoc are stated over ghost state only',
   assumptions=[
     'bucket_state algebra (locked/clear_lock/new_version/dec_item_count/set_delete_marker and the field extractors act on disjoint fields): '
     'the real text is linked in here, its algebraic contract is proved in unit vhm',
@@ -88,16 +145,16 @@ UNIT = dict(
     dict(id='lock_bucket', file=I, sig=P + r'lock_bucket\(hash_t hash, guarded_block& block, bucket_state& state\)',
          c_sig='static struct bkt* vhm_lock_bucket(struct vhm* self, uint64_t hash, struct blk** block_p, bstate_t* state_p)',
          subst=BACKOFF + [(r'\bblock\b', '(*block_p)', 'block_ref'), (r'(?<![\w.>])state = ', '(*state_p) = ', 'state_ref'),
-                          (r'\bbucket_state st\b', 'bstate_t st', 'bs_type')],
+],
          post_subst=[(r'return bucket;', 'return &bucket;', 'ref_return')],
          members=['data_block'], methods=METH,
          must_fire={'A_LOAD': 2, 'A_CAS': 1, 'subst:state_ref': 1, 'subst:ref_return': 1, 'subst:backoff_call': 1, 'reference': 1}),
     dict(id='lock_bucket_cut', file=I, sig=P + r'lock_bucket\(hash_t hash, guarded_block& block, bucket_state& state\)',
          c_sig='static struct bkt* vhm_lock_bucket_cut(struct vhm* self, uint64_t hash, struct blk** block_p, bstate_t* state_p)',
          subst=BACKOFF + [(r'\bblock\b', '(*block_p)', 'block_ref'), (r'(?<![\w.>])state = ', '(*state_p) = ', 'state_ref'),
-                          (r'\bbucket_state st\b', 'bstate_t st', 'bs_type')],
+],
          post_subst=[(r'return bucket;', 'return &bucket;', 'ref_return')],
-         members=['data_block'], methods=METH, cut_loops={0: 'LOCKB'},
+         members=['data_block'], methods=METH, py_post=spin_cut('LOCKB'),
          must_fire={'A_LOAD': 2, 'A_CAS': 1, 'cut_loop': 1}),
     dict(id='reset', file=I, sig=P + r'iterator::reset\(\)', c_sig='static void vit_reset(struct vit* self)',
          members=ITM, methods=METH, calls={'bucket_state': 'BS_zero'},
@@ -111,14 +168,14 @@ UNIT = dict(
     dict(id='move_to_next_bucket_cut', file=I, sig=P + r'iterator::move_to_next_bucket\(\)',
          c_sig='static void vit_move_to_next_bucket_cut(struct vit* self)',
          subst=BACKOFF, members=ITM, methods=METH, self_calls={'reset': 'vit_reset', 'move_to_next_bucket': 'vit_move_to_next_bucket_cut'},
-         cut_loops={0: 'MNB'},
+         py_post=spin_cut('MNB'),
          must_fire={'A_LOAD': 1, 'A_CAS': 1, 'A_STORE': 1, 'cut_loop': 1}),
     dict(id='operator++', file=I, sig=P + r'iterator::operator\+\+\(\)', c_sig='static struct vit* vit_next(struct vit* self)',
          members=ITM, methods=METH, self_calls={'move_to_next_bucket': 'vit_move_to_next_bucket'},
          post_subst=[(r'return \(\*self\);', 'return self;', 'return_this')],
          must_fire={'A_LOAD': 2, 'self_call:move_to_next_bucket': 2, 'subst:return_this': 2}),
     dict(id='operator*', file=I, sig=P + r'iterator::operator\*\(\)', c_sig='static struct kv vit_deref(struct vit* self)',
-         subst=[(r'traits::deref_iterator\(([^,]+), ([^)]+)\)', r'TR_deref_iterator(&(\1), &(\2))', 'deref_call')],
+         subst=[(r'traits::deref_iterator\(', 'TR_DEREF_ITERATOR(', 'deref_call')],
          members=ITM, must_fire={'subst:deref_call': 2}),
     dict(id='move_ctor', file=I, sig=P + r'iterator::iterator\(iterator&& other\)', ctor=True,
          c_sig='static void vit_move_ctor(struct vit* self, struct vit* other_p)',
@@ -130,15 +187,13 @@ UNIT = dict(
          post_subst=[(r'\bother\b', '(*other_p)', 'other_ref'), (r'return \(\*self\);', 'return self;', 'return_this')],
          must_fire={'method:reset': 1}),
     dict(id='begin', file=I, sig=P + r'begin\(\)', c_sig='static struct vit vhm_begin(struct vhm* self)',
-         subst=[RESULT, LOCKB], methods=METH,
-         must_fire={'subst:result_decl': 1, 'subst:lock_bucket_call': 1, 'method:move_to_next_bucket': 1}),
+         subst=[RESULT], self_calls=LOCKB_CALL, methods=METH,
+         must_fire={'subst:result_decl': 1, 'self_call:lock_bucket': 1, 'method:move_to_next_bucket': 1}),
     dict(id='find', file=I, sig=P + r'find\(const key_type& key\)', c_sig='static struct vit vhm_find(struct vhm* self, uint64_t key)',
-         subst=[RESULT, LOCKB, CMPKEY, (r'hash\{\}\((\w+)\)', r'XV_HASH(\1)', 'hash_call'),
-                (r'\baccessor acc;', 'struct accessor acc = {0};', 'acc_decl'),
-                (r'return end\(\);', '{ vit_dtor(&result); return vhm_end(self); }', 'dtor_at_return')],
-         methods=METH,
-         must_fire={'subst:result_decl': 1, 'subst:lock_bucket_call': 1, 'subst:compare_key_call': 2, 'subst:hash_call': 1,
-                    'subst:dtor_at_return': 1, 'A_LOAD': 2}),
+         subst=[RESULT, CMPKEY, (r'hash\{\}\(', 'XV_HASH(', 'hash_call'), (r'\baccessor (\w+);', r'struct accessor \1 = {0};', 'acc_decl')],
+         self_calls=dict(LOCKB_CALL, end='vhm_end'), methods=METH, py_post=dtor_at_return,
+         must_fire={'subst:result_decl': 1, 'self_call:lock_bucket': 1, 'subst:compare_key_call': 2, 'subst:hash_call': 1,
+                    'dtor_at_return': 1, 'A_LOAD': 2}),
     dict(id='erase_it', file=I, sig=P + r'erase\(iterator& pos\)', c_sig='static void vhm_erase_it(struct vhm* self, struct vit* pos_p)',
          subst=[(r'\bpos\b', '(*pos_p)', 'pos_ref')], methods=METH, calls={'free_extension_item': 'XV_FREE_EXT'},
          must_fire={'A_STORE': 12, 'A_LOAD': 12, 'call:free_extension_item': 2, 'method:move_to_next_bucket': 2}),
@@ -159,7 +214,7 @@ UNIT = dict(
     run('reset', 'h_reset', 2, 1, CB=1),
     run('mnb_b0', 'h_mnb', 3, 0, CB=0), run('mnb_b1', 'h_mnb', 3, 0, CB=1), run('mnb_b2', 'h_mnb', 3, 0, CB=2),
     run('mnb_NB4', 'h_mnb', 4, 0, CB=0, tiers=TH), run('mnb_NB1', 'h_mnb', 1, 0, tiers=TH),
-    run('mnb_int', 'h_mnb_int', 3, 0, CB=0, mode='INT', note='lock loop cut by invariant MNB (unbounded retries); recursion over the NB buckets unwound'),
+    run('mnb_int', 'h_mnb_int', 3, 0, CB=0, mode='INT', note='lock loop cut by invariant MNB: a failed attempt leaves the set of held buckets as it was at loop entry (unbounded retries); recursion over the NB buckets unwound'),
     run('mnb_int_b1', 'h_mnb_int', 3, 0, CB=1, mode='INT', tiers=TH),
     run('move_ctor', 'h_move_ctor', 2, 1), run('move_assign', 'h_move_assign', 2, 1),
     run('traverse', 'h_traverse', 2, 1, tiers=TH, cls='bounded', unwind=12, flags=['--object-bits', '12'], note='whole begin/++/end traversal, at most 8 elements'),
@@ -189,3 +244,4 @@ UNIT = dict(
             'mnb_int.end', 'mnb_int.positioned', 'move_ctor.positioned', 'move_ctor.end', 'move_assign.both_positioned',
             'move_assign.end_over_positioned', 'move_assign.positioned_over_end', 'move_assign.end_over_end', 'traverse.three_or_more'],
 )
+for _sp in UNIT['sources']: _sp['subst'] = list(_sp.get('subst', [])) + TYPE_SUBST
